@@ -23,6 +23,9 @@ import (
 type op struct {
 	Op   string `json:"op"` // add | remove
 	Name string `json:"name"`
+	// Quiet: no lookup is made after this change — the next change follows immediately (a batch of
+	// membership changes; the oracle then judges the whole batch at its end)
+	Quiet bool `json:"quiet,omitempty"`
 }
 
 type kase struct {
@@ -68,7 +71,7 @@ type failure struct {
 }
 
 type stats struct {
-	moved, movedAdd, movedRemove, lookups, emptyPanics int
+	moved, movedAdd, movedRemove, movedBatch, quiet, lookups, emptyPanics int
 	addExisting, removeAbsent                          int
 }
 
@@ -86,6 +89,7 @@ func runCase(r *hxlib.Run, c *kase) ([]failure, stats) {
 		r.Op("new", "ok")
 	}
 	lookupAll(ring, keys, before)
+	added, removed := map[string]bool{}, map[string]bool{} // members added / removed since the last lookups
 	for idx, o := range c.Ops {
 		var p string
 		switch o.Op {
@@ -95,12 +99,14 @@ func runCase(r *hxlib.Run, c *kase) ([]failure, stats) {
 			}
 			p = hxlib.Guard(func() { ring.AddNode(o.Name) })
 			members[o.Name] = true
+			added[o.Name] = true
 		case "remove":
 			if !members[o.Name] {
 				st.removeAbsent++
 			}
 			p = hxlib.Guard(func() { ring.RemoveNode(o.Name) })
 			delete(members, o.Name)
+			removed[o.Name] = true
 		default:
 			panic("bad op " + o.Op)
 		}
@@ -112,6 +118,11 @@ func runCase(r *hxlib.Run, c *kase) ([]failure, stats) {
 		if r != nil {
 			r.Op(o.Op+" "+hxlib.Hex([]byte(o.Name)), out)
 		}
+		if o.Quiet && idx+1 < len(c.Ops) {
+			st.quiet++
+			continue
+		}
+		batch := len(added)+len(removed) > 1
 		lookupAll(ring, keys, after)
 		lookupAll(ring, keys, again)
 		st.lookups += 2 * len(keys)
@@ -137,6 +148,20 @@ func runCase(r *hxlib.Run, c *kase) ([]failure, stats) {
 			}
 			st.moved++
 			movedIdx = append(movedIdx, i)
+			if batch {
+				// several changes since the last lookups: each single change moves a key only to the member it
+				// adds or away from the member it removes, so over the batch a key that went from b to a needs
+				// a to have been added or b to have been removed in the batch
+				st.movedBatch++
+				if !added[a] && !removed[b] {
+					to := a
+					if a == panicMark {
+						to = "<panic>"
+					}
+					fails = append(fails, failure{"batch:key-moved-between-untouched-members", fmt.Sprintf("a batch of %d membership changes ending in %s(%q) moved key %q from %q to %q, neither of which was added or removed in the batch", len(added)+len(removed), o.Op, o.Name, k, b, to), idx, k})
+				}
+				continue
+			}
 			switch o.Op {
 			case "add": // a key moves only to the new member
 				st.movedAdd++
@@ -173,6 +198,7 @@ func runCase(r *hxlib.Run, c *kase) ([]failure, stats) {
 			}
 		}
 		before, after = after, before
+		added, removed = map[string]bool{}, map[string]bool{}
 	}
 	return fails, st
 }
@@ -225,6 +251,8 @@ func one(r *hxlib.Run, c *kase) {
 	r.CountN("keys-moved-on-add", st.movedAdd)
 	r.CountN("keys-moved-on-remove", st.movedRemove)
 	r.CountN("lookup-panics-on-empty-ring", st.emptyPanics)
+	r.CountN("keys-moved-over-a-batch", st.movedBatch)
+	r.CountN("changes-without-a-lookup-after", st.quiet)
 	r.CountN("add-of-existing-member", st.addExisting)
 	r.CountN("remove-of-non-member", st.removeAbsent)
 	for _, o := range c.Ops {
@@ -326,12 +354,45 @@ func randomCase(r *hxlib.Run, rr *hxlib.Rand, cols []collision, nkeys int) *kase
 	for i := 0; i < nops; i++ {
 		name := pool[rr.Intn(len(pool))]
 		if rr.Chance(3, 5) {
-			c.Ops = append(c.Ops, op{"add", name})
+			c.Ops = append(c.Ops, op{Op: "add", Name: name})
 		} else {
-			c.Ops = append(c.Ops, op{"remove", name})
+			c.Ops = append(c.Ops, op{Op: "remove", Name: name})
+		}
+	}
+	if rr.Chance(1, 3) { // batches of changes with no lookup in between
+		c.Tag += "+batched"
+		for i := range c.Ops {
+			c.Ops[i].Quiet = rr.Chance(3, 5)
 		}
 	}
 	return c
+}
+
+// replaceCases: a member is replaced by another (remove x; add y) — and other net-zero batches — with no lookup in between.
+func replaceCases(rr *hxlib.Rand, nkeys int) []*kase {
+	n := rr.Range(2, 9)
+	var base []op
+	for i := 0; i < n; i++ {
+		base = append(base, op{Op: "add", Name: "node" + strconv.Itoa(i)})
+	}
+	x := "node" + strconv.Itoa(rr.Intn(n))
+	y := "fresh" + strconv.Itoa(rr.Intn(100))
+	z := "fresh" + strconv.Itoa(100+rr.Intn(100))
+	mk := func(tag string, tail ...op) *kase {
+		return &kase{KeyFrom: rr.Intn(1000000), KeyCount: nkeys, ModelKeys: 40, Tag: tag, Ops: append(append([]op{}, base...), tail...)}
+	}
+	return []*kase{
+		mk("batch:replace-member", op{Op: "remove", Name: x, Quiet: true}, op{Op: "add", Name: y}),
+		mk("batch:add-then-remove-other", op{Op: "add", Name: y, Quiet: true}, op{Op: "remove", Name: x}),
+		mk("batch:swap-twice", op{Op: "remove", Name: x, Quiet: true}, op{Op: "add", Name: y, Quiet: true}, op{Op: "remove", Name: y, Quiet: true}, op{Op: "add", Name: z}),
+		mk("batch:grow-then-shrink-to-one", func() []op {
+			var o []op
+			for i := 0; i < n-1; i++ {
+				o = append(o, op{Op: "remove", Name: "node" + strconv.Itoa(i), Quiet: i%2 == 0})
+			}
+			return o
+		}()...),
+	}
 }
 
 // collisionCases: the histories in which a shared point matters.
@@ -339,7 +400,7 @@ func collisionCases(rr *hxlib.Rand, col collision, nkeys int) []*kase {
 	others := func(n int) []op {
 		var o []op
 		for i := 0; i < n; i++ {
-			o = append(o, op{"add", "other" + strconv.Itoa(i)})
+			o = append(o, op{Op: "add", Name: "other" + strconv.Itoa(i)})
 		}
 		return o
 	}
@@ -358,15 +419,15 @@ func collisionCases(rr *hxlib.Rand, col collision, nkeys int) []*kase {
 	n := rr.Range(1, 14)
 	return []*kase{
 		// b takes the shared point over from a; a leaves
-		mk("collision:add-a-add-b-remove-a", others(n), []op{{"add", a}, {"add", b}, {"remove", a}}),
+		mk("collision:add-a-add-b-remove-a", others(n), []op{{Op: "add", Name: a}, {Op: "add", Name: b}, {Op: "remove", Name: a}}),
 		// a was never a member
-		mk("collision:add-b-remove-absent-a", others(n), []op{{"add", b}, {"remove", a}}),
+		mk("collision:add-b-remove-absent-a", others(n), []op{{Op: "add", Name: b}, {Op: "remove", Name: a}}),
 		// the owner of the shared point leaves, the other stays
-		mk("collision:add-a-add-b-remove-b", others(n), []op{{"add", a}, {"add", b}, {"remove", b}, {"remove", a}}),
+		mk("collision:add-a-add-b-remove-b", others(n), []op{{Op: "add", Name: a}, {Op: "add", Name: b}, {Op: "remove", Name: b}, {Op: "remove", Name: a}}),
 		// ownership goes back and forth
-		mk("collision:re-add", others(n), []op{{"add", a}, {"add", b}, {"add", a}, {"remove", b}, {"add", b}, {"remove", a}, {"remove", b}}),
+		mk("collision:re-add", others(n), []op{{Op: "add", Name: a}, {Op: "add", Name: b}, {Op: "add", Name: a}, {Op: "remove", Name: b}, {Op: "add", Name: b}, {Op: "remove", Name: a}, {Op: "remove", Name: b}}),
 		// only the two of them
-		mk("collision:pair-alone", []op{{"add", a}, {"add", b}, {"remove", a}, {"remove", b}}),
+		mk("collision:pair-alone", []op{{Op: "add", Name: a}, {Op: "add", Name: b}, {Op: "remove", Name: a}, {Op: "remove", Name: b}}),
 	}
 }
 
@@ -384,16 +445,16 @@ func main() {
 	nkeys := r.Scale(3000, 10000)
 
 	// fixed small cases: empty ring, one member, add/remove of the same member, removal of a non-member
-	one(r, &kase{Ops: []op{{"remove", "a"}, {"add", "a"}, {"add", "a"}, {"remove", "b"}, {"remove", "a"}, {"remove", "a"}}, KeyCount: 200, ModelKeys: 200, Tag: "fixed"})
-	one(r, &kase{Ops: []op{{"add", ""}, {"add", "a"}, {"remove", ""}, {"add", "-0"}, {"add", "节点"}, {"remove", "a"}}, Keys: []string{"", "世界", "a-0", "-0"}, KeyCount: 200, ModelKeys: 204, Tag: "fixed"})
+	one(r, &kase{Ops: []op{{Op: "remove", Name: "a"}, {Op: "add", Name: "a"}, {Op: "add", Name: "a"}, {Op: "remove", Name: "b"}, {Op: "remove", Name: "a"}, {Op: "remove", Name: "a"}}, KeyCount: 200, ModelKeys: 200, Tag: "fixed"})
+	one(r, &kase{Ops: []op{{Op: "add", Name: ""}, {Op: "add", Name: "a"}, {Op: "remove", Name: ""}, {Op: "add", Name: "-0"}, {Op: "add", Name: "节点"}, {Op: "remove", Name: "a"}}, Keys: []string{"", "世界", "a-0", "-0"}, KeyCount: 200, ModelKeys: 204, Tag: "fixed"})
 
 	// the collision found in the design phase: n151 and n2186 share ring point 1052282076
 	{
 		c := &kase{Keys: []string{"k1095361"}, KeyCount: 500, ModelKeys: 50, Tag: "design-phase-collision"}
 		for i := 0; i < 12; i++ {
-			c.Ops = append(c.Ops, op{"add", "other" + strconv.Itoa(i)})
+			c.Ops = append(c.Ops, op{Op: "add", Name: "other" + strconv.Itoa(i)})
 		}
-		c.Ops = append(c.Ops, op{"add", "n151"}, op{"add", "n2186"}, op{"remove", "n151"})
+		c.Ops = append(c.Ops, op{Op: "add", Name: "n151"}, op{Op: "add", Name: "n2186"}, op{Op: "remove", Name: "n151"})
 		one(r, c)
 	}
 
@@ -414,6 +475,15 @@ func main() {
 			one(r, c)
 		}
 	}
+	// batches of changes with no lookup in between (member replacement and other net-zero batches)
+	for i := 0; i < r.Scale(6, 40); i++ {
+		for _, c := range replaceCases(r.R, nkeys) {
+			if i == 0 {
+				r.Sample(c)
+			}
+			one(r, c)
+		}
+	}
 	// random histories
 	n := r.Scale(40, 400)
 	for i := 0; i < n; i++ {
@@ -428,10 +498,10 @@ func main() {
 		c := &kase{KeyFrom: r.R.Intn(1000000), KeyCount: nkeys, ModelKeys: 30, Tag: "many-members"}
 		m := r.R.Range(30, 60)
 		for j := 0; j < m; j++ {
-			c.Ops = append(c.Ops, op{"add", "srv" + strconv.Itoa(j)})
+			c.Ops = append(c.Ops, op{Op: "add", Name: "srv" + strconv.Itoa(j)})
 		}
 		for j := 0; j < m; j += r.R.Range(1, 5) {
-			c.Ops = append(c.Ops, op{"remove", "srv" + strconv.Itoa(j)})
+			c.Ops = append(c.Ops, op{Op: "remove", Name: "srv" + strconv.Itoa(j)})
 		}
 		one(r, c)
 	}
